@@ -490,13 +490,22 @@ class Interp(object):
         if spec is not None and self.loop_spec_active(spec):
             return self.exec_loop_with_spec(node, frame, spec, kind='while')
         n = 0
+        symbolic_rounds = 0
         while True:
+            decisions0 = len(getattr(self.p, 'taken', ()))
             cond = self.eval(node.test, frame)
             concrete = smt.as_concrete_bool(cond) if not isinstance(cond, (bool, int, type(None))) else None
             if not self.truthy(cond):
                 self.exec_block(node.orelse, frame)
                 return
             n += 1
+            if len(getattr(self.p, 'taken', ())) > decisions0:
+                # the guard was decided by a symbolic branch: a loop without a specification is unrolled
+                # a few times only (every round doubles the paths); beyond that it needs an invariant
+                symbolic_rounds += 1
+                if symbolic_rounds > 2 and self.p is not self.load_path:
+                    raise Unsupported('loop %s:%d with a symbolic guard needs an invariant (unrolled %d times)' %
+                                      (frame.qualname, ordinal, n - 1))
             if n > self.unroll_limit(frame):
                 raise Unsupported('loop %s:%d needs an invariant (unrolled %d times)' %
                                   (frame.qualname, ordinal, n - 1))
@@ -908,6 +917,12 @@ class Interp(object):
                 return -v
         if isinstance(node.op, ast.UAdd) and is_intlike(v):
             return v
+        if isinstance(node.op, ast.Invert):
+            # ~x == -x - 1 for every Python int
+            if isinstance(v, (int, bool)):
+                return ~int(v)
+            if smt.is_int_term(v):
+                return -v - 1
         self.unsupported(node, 'unary op')
 
     def eval_BinOp(self, node, frame):
